@@ -218,12 +218,27 @@ func oraclesOn(dir string, ops []*Op, spec PropSpec, prop string) []*Violation {
 				before[id] = true
 			}
 		}
+		var preBytes []byte
+		if cp.Kind == "add" && e.f != nil {
+			preBytes = e.storeBytes()
+		}
+		wasApart := e.desync
+		cp.Fault = ""
 		obs := e.Apply(&cp)
 		for _, v := range e.pending {
 			v.Op = i
 			vs = append(vs, v)
 		}
 		e.pending = nil
+		if preBytes != nil && e.f != nil && len(obs) > 0 {
+			for _, o := range spec.Oracles {
+				if (o == "C02" || o == "C08") && (spec.Prop == o || spec.Prop == "") {
+					if v := oracleAddSlot(e, preBytes, o, i, &cp, obs[0]); v != nil {
+						vs = append(vs, v)
+					}
+				}
+			}
+		}
 		if first == nil {
 			first = &Case{}
 		}
@@ -240,6 +255,9 @@ func oraclesOn(dir string, ops []*Op, spec PropSpec, prop string) []*Violation {
 				v = oracleC01(e, i, &cp, res, before)
 			case o == "C02" && (isMutator(cp.Kind) || cp.Kind == "create" || cp.Kind == "reload" || cp.Kind == "load"):
 				v = oracleC02(e, st, i, &cp, res)
+			case o == "C03" && (cp.Fault != "" || e.desync || wasApart) && isMutator(cp.Kind):
+				st.afterFault = true
+				st.prevBytes, st.havePrev = e.storeBytes(), false
 			case o == "C03" && (isMutator(cp.Kind) || cp.Kind == "create" || cp.Kind == "load"):
 				if cp.Kind == "create" || cp.Kind == "load" {
 					st.prev, st.havePrev = takeSnap(e.f), true
